@@ -8,6 +8,7 @@ import (
 	"fmt"
 	"io"
 	"math/rand"
+	"reflect"
 	"regexp"
 	"sort"
 
@@ -37,13 +38,37 @@ var idxSuffixRe = regexp.MustCompile(`\[\d+]$`)
 
 func init() {
 	register(&Prop{ID: "C01", Run: c01Run,
-		Rule: "generic values (string-keyed maps, lists, scalars of Go types int/int64/uint64/float64/string/bool/time.Time, nulls at any position incl. inside lists, empty maps/lists) through FromMap/AsMap; YAML and JSON texts (renderings of generated values, a feature corpus: timestamps, anchors/aliases, merge keys, !!binary, non-string keys, big ints, .inf, multi-document, empty; and a malformed stream: truncations, byte flips, random bytes) through FromReader vs a control decode; Serialize x20 per document and encoder; failing writer/reader at every byte offset; afterfail: a call that fails part-way (writer failing after n bytes for six n incl. 0, a value the encoder rejects, a reader failing after n bytes, unparsable text) on one document, then ordinary Serialize / FromReader calls on another and on the same document, compared byte for byte with what they produced before the failure; shared: values in which one Go map / slice object occurs at 2-3 positions; big: texts of Size-1 / Size / Size+1 bytes for Size in 512, 4 KiB, 64 KiB, 1 MiB, and with a 2/3/4-byte UTF-8 character starting at offset Size-1, read whole, in chunks of Size / Size-1 / 511 bytes and one byte at a time, reader and writer failing at the threshold; serhist: documents serialised, edited in place (AddValue / Remove / Set / MustSet / Append / Clear ... through nested builders, Lookup, the root's path API) and serialised again, against a freshly built document. Non-trivial: the value has at least one composite child or the text decodes to a non-empty map; distinct by case hash.",
+		Rule: "generic values (string-keyed maps, lists, scalars of Go types int/int64/uint64/float64/string/bool/time.Time, nulls at any position incl. inside lists, empty maps/lists) through FromMap/AsMap; a keys stream draws the member names of each value from 4-6 names of a wide pool of arbitrary strings (vr_util.go: literal names that spell a dotted / slashed / pointer path NEXT TO the nesting they spell — \"a.b\" beside a -> b —, case twins, blanks, the empty name, precomposed vs combining forms, letters and symbols outside the BMP, U+FFFD, brackets that are no index group, YAML / JSON / template syntax, names that read as numbers, booleans or null, 20+ digit strings) with value-range scalars at half of the leaves (both float zeros, 2^31 / 2^53 / 2^63 / 2^64 neighbours, denormals, +-Inf, blank / case / CRLF variants of strings, boolean spellings); every conversion is repeated 24 times (texts: 12 times) because Go's map iteration order differs from call to call and each result must be deeply equal to the value; YAML and JSON texts (renderings of generated values, a feature corpus: timestamps, anchors/aliases, merge keys, !!binary, non-string keys, big ints, .inf, multi-document, empty; and a malformed stream: truncations, byte flips, random bytes) through FromReader vs a control decode; Serialize x20 per document and encoder; failing writer/reader at every byte offset; afterfail: a call that fails part-way (writer failing after n bytes for six n incl. 0, a value the encoder rejects, a reader failing after n bytes, unparsable text) on one document, then ordinary Serialize / FromReader calls on another and on the same document, compared byte for byte with what they produced before the failure; shared: values in which one Go map / slice object occurs at 2-3 positions; big: texts of Size-1 / Size / Size+1 bytes for Size in 512, 4 KiB, 64 KiB, 1 MiB, and with a 2/3/4-byte UTF-8 character starting at offset Size-1, read whole, in chunks of Size / Size-1 / 511 bytes and one byte at a time, reader and writer failing at the threshold; serhist: documents serialised, edited in place (AddValue / Remove / Set / MustSet / Append / Clear ... through nested builders, Lookup, the root's path API) and serialised again, against a freshly built document. Non-trivial: the value has at least one composite child or the text decodes to a non-empty map; distinct by case hash.",
 		Assumptions: []string{
 			"yaml.v3 / encoding/json are external: byte determinism of Serialize rests on the encoder being a function of the value (sorted keys); fault propagation on the codec returning stream errors — validated here by repeated calls and by fault enumeration, not proved",
 			"known finding D26: map keys ending in an index group are interpreted as list indices by FromMap (classified by a decidable predicate on the input's keys)",
 			"scalars are compared as (Go type, fmt.Sprint) pairs"}})
 	evals["C01"] = c01Eval
-	shrinkers["C01"] = shrinkJSON
+	shrinkers["C01"] = c01Shrink
+}
+
+// c01Shrink: shrinkJSON, plus — for the cases whose document sits in a field named "m", which the generic shrinker
+// takes for the document's own wrapper — the candidates that delete an entry of the ROOT map.
+func c01Shrink(kind string, raw []byte) [][]byte {
+	out := shrinkJSON(kind, raw)
+	if kind != "frommap" {
+		return out
+	}
+	var p c01Map
+	if err := json.Unmarshal(raw, &p); err != nil || wireKind(p.M) != "cont" {
+		return out
+	}
+	inner, _ := json.Marshal([]any{p.M})
+	var first [][]byte
+	for _, cand := range shrinkJSON(kind, inner) {
+		var l []any
+		if json.Unmarshal(cand, &l) == nil && len(l) == 1 && wireKind(l[0]) == "cont" {
+			if b, err := json.Marshal(c01Map{l[0]}); err == nil && len(b) < len(raw) {
+				first = append(first, b)
+			}
+		}
+	}
+	return append(first, out...)
 }
 
 func c01Gen() *DocGen {
@@ -76,6 +101,27 @@ var c01Features = []string{
 	"? [1, 2]\n: v\n",
 	"a: !!str 1\nb: !!float 1\nc: 0x1F\nd: 0o17\ne: 1_000\n",
 	"t: 12:30:45\nv: 1.2.3\nn: null\nnn: Null\ne: ''\n",
+	// value-range breadth of texts: line ends, byte order mark, names that spell paths next to the nesting they spell, case
+	// twins, blank and empty names, letters and symbols outside ASCII / outside the BMP, the float zeros, numbers at the
+	// width and precision boundaries, boolean spellings, explicitly empty values, escapes, number notations
+	"a: 1\r\nb:\r\n  - x\r\n  - y\r\nc: \"p\r\nq\"\r\n",
+	"\ufeffa: 1\nb: [2]\n",
+	"a.b: {y: 2}\na: {b: {x: 1}}\n",
+	"a: {b: {c: {x: 1}}, b.c: {y: 2}}\na.b: {c: {z: 3}}\na.b.c: {w: 4}\n",
+	"a/b: {y: 2}\na: {b: {x: 1}}\n/a/b: {z: 3}\n",
+	"maxConn: 1\nmaxconn: 2\nMAXCONN: 3\nMaxConn: {maxConn: 4, maxconn: 5}\n",
+	"\"\": empty\n\" \": blank\n\"a \": trailing\n\" a\": leading\na: plain\n\"a\\tb\": tab\n\"\\u00a0a\": nbsp\n",
+	"größe: 1\nключ: 2\n名前: 3\n🚀: 4\n𝛼: {𝛽: [é, e\u0301]}\n",
+	"z: -0.0\np: 0.0\ni: -0\nl: [-0.0, 0.0, +0.0, -0e0]\n",
+	"n: 9007199254740993\nm: 9223372036854775807\no: 9223372036854775808\nq: 18446744073709551616\nr: 123456789012345678901234567890\ns: -9223372036854775809\nd: 4.9e-324\ne: 1e-400\n",
+	"b: [yes, no, on, off, y, n, T, F, t, f, TRUE, True, true, FALSE, 1, 0]\nyes: 1\ntrue: 2\nnull: 3\n~: 4\n",
+	"e1: {}\ne2: []\ne3: \"\"\ne4:\ne5: ~\ne6: [[]]\ne7: [{}]\ne8: {a: {}}\ne9: [\"\"]\ne10: ''\n",
+	"s: \"a\\tb\\u00a0c\\U0001F680\\x41\"\nt: 'it''s'\nu: \"\\\\n\"\nv: \"{{x}} ${y} #z\"\nw: a#b\nx: a #b\n",
+	"a: &x [1, 2]\nb: *x\nc: [*x, *x]\n",
+	"a: \"line1\\r\\nline2\"\nb: |+\n  keep\n\nc: |-\n  strip\n\nd: >\n  f1\n  f2\n\n  p2\n",
+	"a: 0b101\nb: 0o17\nc: 017\nd: 1_000\ne: +1\nf: .5\ng: 1.\nh: 1e3\ni: 0x_1F\nj: 1__0\nk: 00\nl: 09\n",
+	"a: 2001-12-14 21:59:43.10 -5\nb: 2001-12-14\nc: 2001-12-14t21:59:43Z\nd: 2001-02-30\ne: [2001-12-14, '2001-12-14']\n",
+	"l0: []\nl1: [a]\nl2: [a, b]\nl9: [1, 2, 3, 4, 5, 6, 7, 8, 9]\nl10: [1, 2, 3, 4, 5, 6, 7, 8, 9, 10]\nl11: [1, 2, 3, 4, 5, 6, 7, 8, 9, 10, 11]\nl12: [1, 2, 3, 4, 5, 6, 7, 8, 9, 10, 11, null]\n",
 }
 
 var c01JsonFeatures = []string{
@@ -84,6 +130,20 @@ var c01JsonFeatures = []string{
 	`{}`, `[]`, `null`, `1`, ``, `{"a":1}{"b":2}`, `{"a": 1,}`, `{"a[1]": 1}`,
 	"{\"a\": \"\\u00e9\\ud834\\udd1e\"}",
 	`{"a": 1} trailing`,
+	`{"a.b": {"y": 2}, "a": {"b": {"x": 1}}}`,
+	`{"a": {"b": {"c": {"x": 1}}, "b.c": {"y": 2}}, "a.b": {"c": {"z": 3}}, "a.b.c": {"w": 4}}`,
+	`{"a": -0.0, "b": 0.0, "c": -0, "d": [0, -0.0, 0e0]}`,
+	`{"a": 1E400}`, `{"a": 1e-400, "b": 4.9e-324}`,
+	`{"a": 9007199254740993, "b": 18446744073709551616, "c": 9223372036854775807, "d": -9223372036854775809, "e": 123456789012345678901234567890}`,
+	`{"": 1, " ": 2, "a ": 3, "A": 4, "a": 5, "\ta": 6, "\u00a0a": 7}`,
+	"{\"a\": 1,\r\n \"b\": [2,\r\n3]}\r\n",
+	`{"a": "\ud800", "b": "\ud83d\ude80", "c": "\udc00x"}`,
+	`{"größe": 1, "🚀": {"𝛼": []}, "maxConn": 1, "maxconn": 2}`,
+	"\ufeff{\"a\": 1}",
+	`{"a": 1, "a": 2, "b": {"c": 1, "c": {"d": 2}}}`,
+	`{"e1": {}, "e2": [], "e3": "", "e4": null, "e5": [[]], "e6": [{}], "e7": {"a": {}}, "e8": [""]}`,
+	`{"t": true, "T": "T", "f": false, "one": 1, "zero": 0, "s": "true", "n": "null"}`,
+	`{"l0": [], "l1": [1], "l2": [1, 2], "l9": [1,2,3,4,5,6,7,8,9], "l10": [1,2,3,4,5,6,7,8,9,10], "l11": [1,2,3,4,5,6,7,8,9,10,11], "l12": [1,2,3,4,5,6,7,8,9,10,11,null]}`,
 }
 
 func c01Run(c *Ctx) {
@@ -92,6 +152,29 @@ func c01Run(c *Ctx) {
 	for i := 0; i < c.N(2500); i++ {
 		c.Tick()
 		c.Do("frommap", c01Map{g.Doc(r)})
+	}
+	// keys stream: member names are arbitrary strings
+	gk := c01Gen()
+	gk.MaxDepth, gk.PLeaf, gk.MaxWidth = 4, 0.4, 5
+	for i := 0; i < c.N(700); i++ {
+		c.Tick()
+		gk.Keys = c01KeyPool(r)
+		m := gk.Doc(r)
+		if i%2 == 0 {
+			m = vrSprinkle(r, m, 0.5, vrOpts{Time: true, Inf: true})
+		}
+		c.Dist("frommap:keys-are-arbitrary-strings")
+		c.Do("frommap", c01Map{m})
+		if i%3 == 0 {
+			// the same value as YAML / JSON text (what the encoders make of it: the control decode decides what is expected)
+			plain := wirePlain(vrSprinkle(r, gk.Doc(r), 0.3, vrOpts{}))
+			if b, err := yaml.Marshal(plain); err == nil {
+				c.Do("text", c01Text{"yaml", base64.StdEncoding.EncodeToString(b), "rendered-wide-keys"})
+			}
+			if b, err := json.Marshal(plain); err == nil {
+				c.Do("text", c01Text{"json", base64.StdEncoding.EncodeToString(b), "rendered-wide-keys"})
+			}
+		}
 	}
 	// D26 stream: keys with an index suffix
 	gi := c01Gen()
@@ -156,6 +239,21 @@ func c01Run(c *Ctx) {
 		c.Do("fault", c01Ser{gs.Doc(r), pick(r, []string{"yaml", "json"})})
 	}
 	c01RunMore(c) // c01_more.go: calls after a failed call, shared Go objects, size thresholds, documents with a history
+}
+
+// c01KeyPool: the names one value of the keys stream draws from — a group of names one of which spells a path
+// through the others, or a handful of the wide pool (none ends in an index group).
+func c01KeyPool(r *rand.Rand) []string {
+	if r.Intn(3) == 0 {
+		return pick(r, [][]string{{"a", "b", "a.b", "b.a", "a.a"}, {"a", "b", "a.b", "a.b.a", "."}, {"a", "b", "a/b", "/a/b", "~1a"}, {"a", "a.", ".a", "a..b", "b"},
+			{"maxConn", "maxconn", "MAXCONN", "a", "a "}, {"", " ", "a", ".", "\u00a0a"}, {"0", "00", "-0", "0.0", "a.0"}})
+	}
+	n := 4 + r.Intn(3)
+	ks := make([]string, n)
+	for i := range ks {
+		ks[i] = pick(r, vrAnyKeys)
+	}
+	return ks
 }
 
 // c01AnyKeys rewrites some string-keyed maps below the root into maps keyed by ints, bools and
@@ -364,6 +462,17 @@ func c01Eval(c *Ctx, kind string, raw []byte) {
 			c.Direct("frommap:input-untouched", canon(plainWire(plain)) == canon(p.M), nil)
 			// repeated use: a second conversion of the same value and a second AsMap are what the first ones were, and
 			// the earlier results stay what they were whatever is done with the later ones
+			// Go's map iteration order differs from call to call: every conversion of the same value must be deeply equal
+			// to the value, whichever entry the decoder happens to visit first
+			if has, _ := wireIdxKeys(p.M); !has {
+				for i := 0; i < 24; i++ {
+					again := dom.Builder().FromMap(plain)
+					if !c.Direct("frommap:AsMap(FromMap(m))==m on every one of 24 conversions (map iteration order)", reflect.DeepEqual(again.AsMap(), plain) && canon(nodeWire(again)) == canon(p.M),
+						map[string]any{"conversion": i, "asmap": plainWire(again.AsMap()), "dom": nodeWire(again)}) {
+						break
+					}
+				}
+			}
 			first := cb.AsMap()
 			cb2 := dom.Builder().FromMap(plain)
 			if _, collide := wireIdxKeys(p.M); !collide {
@@ -450,6 +559,15 @@ func c01Eval(c *Ctx, kind string, raw []byte) {
 			return
 		}
 		c01CheckDom(c, "text", ctlW, cb)
+		if has, _ := wireIdxKeys(ctlW); !has {
+			for i := 0; i < 12; i++ {
+				again, errA := dom.Builder().FromReader(bytes.NewReader(text), dec)
+				if !c.Direct("text:AsMap(FromReader(t))==decode(t) on every one of 12 loads (map iteration order)", errA == nil && canon(nodeWire(again)) == canon(ctlW),
+					map[string]any{"load": i, "dom": nodeWire(again), "control": ctlW}) {
+					break
+				}
+			}
+		}
 		// the file-suffix provider must select the same decoder
 		out, txt = guard(func() {
 			cb2, err2 := dom.Builder().FromReader(bytes.NewReader(text), common.DefaultFileDecoderProvider(prov))
